@@ -604,15 +604,15 @@ fn variant_board(start: u8, variant: u8) -> Board {
     }
 }
 
-pub fn chain_eq<S: Src, const START: u8, const KG: u8>(s: &mut S) {
+pub fn chain_eq<S: Src, const START: u8, const KG: u8, const VARIANT: u8>(s: &mut S) {
     // chain 1: stated start + one symbolic push of group KG; chain 2: a variant of the start (same / other
     // clock / without the mover's castling rights / another position) + optionally one CONCRETE move of the group.
     // No plain-board model here: equality is about (start, move list, outcome) only.
     rep_reset();
     let b1 = start_board(START);
     let mut c1: Chain = BaseMoveChain::new(b1.clone());
-    let v = s.below(4);
-    let b2 = variant_board(START, v);
+    // the variant is a const: a symbolic choice among four boards made every later step four-way (41 GB)
+    let b2 = variant_board(START, VARIANT);
     let mut c2: Chain = BaseMoveChain::new(b2.clone());
     let side = if b1.side() == Color::White { 0u8 } else { 1u8 };
     let a = any_m_rt(s, side, KG);
@@ -647,10 +647,10 @@ pub fn chain_eq<S: Src, const START: u8, const KG: u8>(s: &mut S) {
     let want = b1.raw() == b2.raw() && same_moves && o1 == o2;
     vnote!("start 1 {} + {:?} ({}) vs start 2 {} + {:?}: == is {}, should be {}", b1.as_fen(), mv_of(a), r1.is_ok(), b2.as_fen(), mv2, c1 == c2, want);
     vassert!("chains compare equal exactly when start, move list and outcome are equal", (c1 == c2) == want);
-    vcover!("equal chains with a move", want && r1.is_ok());
-    vcover!("different starts whose current positions coincide after the same move (pawn / king groups)", !(KG == KG_PAWN || KG == KG_KING)
-        || (!want && r1.is_ok() && same_moves && o1 == o2 && c1.last().raw() == c2.last().raw()));
-    vcover!("same start, different move", !want && r1.is_ok() && mv2.is_some() && o1 == o2 && b1.raw() == b2.raw());
+    vcover!("equal chains with a move (same start)", VARIANT != 0 || (want && r1.is_ok()));
+    vcover!("different starts whose current positions coincide after the same move (clock variant + pawn move, rights variant + king move)",
+        !((VARIANT == 1 && KG == KG_PAWN) || (VARIANT == 2 && KG == KG_KING)) || (!want && r1.is_ok() && same_moves && o1 == o2 && c1.last().raw() == c2.last().raw()));
+    vcover!("same start, different move", VARIANT != 0 || (!want && r1.is_ok() && mv2.is_some() && o1 == o2));
     core::mem::forget(c1);
     core::mem::forget(c2);
 }
